@@ -427,7 +427,15 @@ def rule_r9(ctx):
     c19.rule_r3(ctx, rid="C04.R9")
 
 
-RULES = [rule_r1, rule_r2, rule_r3, rule_r4, rule_r5, rule_r6, rule_r7, rule_r8, rule_r9]
+def rule_r10(ctx):
+    """Shared with C03.R8 (the closing response is flushed completely before the teardown - 'no byte dropped') and
+    C11.R2 (nothing is parsed or dispatched once the close decision fell - 'each executed exactly once ... answered')."""
+    from . import c03, c11
+    c03.rule_r8(ctx, rid="C04.R10")
+    c11.rule_r2(ctx, rid="C04.R10")
+
+
+RULES = [rule_r1, rule_r2, rule_r3, rule_r4, rule_r5, rule_r6, rule_r7, rule_r8, rule_r9, rule_r10]
 
 from ..selftest import M, T, V  # noqa: E402
 
